@@ -112,6 +112,15 @@ def run(res, replay=None):
             A('sfs.cov'), A('sfs.cov'), A('tree_height.demes.cov'), A(f"tree_height.demes['{p2[0]}'].var"), A('tree_height.demes.cov'),
             A('tree_height.var'), A('total_branch_length.var')]})
     if not replay:
+        # designed: distributions that SHARE a state space ask in turn - A something that ends inside the first epoch, B something with the
+        # default horizon (which leaves the shared state space in the last epoch), then A a NEW early question (nothing a distribution
+        # remembers about "its" epoch may stand in for where the shared state space really points)
+        s4 = {'n_items': [['a', 3]], 'model': {'kind': 'kingman'}, 'pop_sizes': {'a': {'0.0': 1.0, '1.0': 3.0, '2.0': 0.5}}}
+        E = lambda d, T: {'kind': 'moment', 'dist': d, 'k': 1, 'end_time': T}
+        cases.append({'spec': s4, 'cache': True, 'parallelize': False, 'ops': [
+            A('tree_height.mean'), {'kind': 'cdf', 'ts': [0.3]}, A('total_branch_length.mean'), {'kind': 'cdf', 'ts': [0.5]},
+            E('sfs', 0.3), A('fsfs.mean'), E('sfs', 0.5), E('total_branch_length', 0.25), A('tree_height.var'), E('total_branch_length', 0.75),
+            {'kind': 'quantile', 'q': 0.05}, A('sfs.var'), {'kind': 'quantile', 'q': 0.1}]})
         # designed: SFS matrices computed in worker processes with MORE work items ((n-1)^2 = 25) than the machine has CPUs, and
         # the ordered parallel map on its own
         s3 = {'n_items': [['a', 6]], 'model': {'kind': 'kingman'}, 'pop_sizes': {'a': {'0.0': 1.0, '0.5': 2.0}}}
